@@ -12,7 +12,9 @@ Prefix == S("example.com/m@v1.0.0/")
 PathsCore == <<S("a"), S("A"), S("b.go"), S("go.mod"), S("GO.MOD"), S("sub/go.mod"), S("sub/a.go"), S("vendor/p/x.go"), S("vendor/modules.txt"),
                S("pkg/vendor/vendor.go"), S("pkg/vendor/p/x.go"), S("dir/f"), S("dirx/f"), S("DIR/g"), S("testdata/example.com/m@v1.0.0/m.go"), S("logo.mod"), S("x/a.go.mod"), S("dir/LICENSE"), S(".git"), S("testdata/.hg/hgrc"), S("b.go/c"), S("LICENSE"), S("a//b"), S("/abs"), S("con"), <<233>>, <<201>>,
                \* a file two levels below a nested module; names with a tab, a carriage return at the end, DEL
-               S("sub/sub2/b.go"), S("vendor/p/vendor/q.go"), S("pkg/vendor/a/vendor/b.go"), S("pkg/vendor/a/vendor/modules.txt"), <<97, 9, 98>>, <<73, 99, 111, 110, 13>>, <<97, 127>>>>
+               S("sub/sub2/b.go"), S("vendor/p/vendor/q.go"), S("pkg/vendor/a/vendor/b.go"), S("pkg/vendor/a/vendor/modules.txt"), <<97, 9, 98>>, <<73, 99, 111, 110, 13>>, <<97, 127>>,
+               \* digits that are not ASCII (Arabic-Indic three, full-width two): not letters, so not allowed
+               <<100, 1635>>, <<118, 65298, 47, 100>>>>
 PathsMore == <<S("Go.Mod"), S("sub/GO.MOD"), S("Sub/x"), S("vendor/x.go"), <<8490>>, S("k"), <<383>>, S("s"), S("aux.txt"), S("a~1"), S("a b"), S("."), S(".."), S("../a"),
                S("a."), S(".hg_archival.txt"), S("a/b"), S("a/"), S("a/./b"), S("a/../b"), S("x*y"), S("vendor/modules.txt/x"), <<181>>, <<924>>, <<956>>, <<946>>, <<914>>,
                \* a nested module inside a vendor directory below the root, a reserved name with two extensions,
@@ -30,7 +32,7 @@ Variants(p) ==
 AllFiles == UNION {Variants(Paths[i]) : i \in 1..Len(Paths)}
 \* archive entries
 Rel == <<S("a.go"), S("A.GO"), S("d/b.go"), S("D/c.go"), S("a.go/x"), S("go.mod"), S("Go.Mod"), S("sub/go.mod"), S("LICENSE"), S("../evil"), S("d/../../evil"),
-         S("/abs"), S("d//e"), S("./f"), S("d/"), S("con"), <<-255>>, S("d\\e"), <<>>, S("vendor/p/x.go"), <<924>>, <<956>>, <<181, 47, 97>>>>
+         S("/abs"), S("d//e"), S("./f"), S("d/"), S("con"), <<-255>>, S("d\\e"), <<>>, S("vendor/p/x.go"), <<924>>, <<956>>, <<181, 47, 97>>, <<100, 1635, 46, 103, 111>>, <<118, 65298, 47, 100>>>>
 PrefixVariants == <<Prefix, S("example.com/M@v1.0.0/"), <<>>, S("example.com/m@v1.0.1/")>>
 Entry(n, sz) == [name |-> n, size |-> sz]
 EntryVariants == {Entry(Prefix \o Rel[i], "ok") : i \in 1..Len(Rel)}
